@@ -1,1 +1,600 @@
+(* routine: invariants of the gate-level model, for every event list (C04, C05, C14). *)
 From Util Require Import Common.Base Common.ListLemmas Routine.Model.
+
+(* ------------------------------------------------------------------ *)
+(* frame facts: which components a setter touches *)
+Ltac frame := intros; reflexivity.
+Lemma insts_setr s r x : insts (setr s r x) = insts s. Proof. frame. Qed.
+Lemma insts_set_timers s l : insts (set_timers s l) = insts s. Proof. frame. Qed.
+Lemma insts_seti s i x : insts (seti s i x) = set_nth (insts s) i x. Proof. frame. Qed.
+Lemma recs_seti s i x : recs (seti s i x) = recs s. Proof. frame. Qed.
+Lemma recs_setr s r x : recs (setr s r x) = set_nth (recs s) r x. Proof. frame. Qed.
+Lemma routine_setr s r x : routine (setr s r x) = routine s. Proof. frame. Qed.
+Lemma routine_set_lastexit s x : routine (set_lastexit s x) = routine s. Proof. frame. Qed.
+Lemma routine_set_insts s x : routine (set_insts s x) = routine s. Proof. frame. Qed.
+Lemma recs_set_lastexit s x : recs (set_lastexit s x) = recs s. Proof. frame. Qed.
+Lemma recs_set_insts s x : recs (set_insts s x) = recs s. Proof. frame. Qed.
+
+Lemma getr_setr_same s r x : r < length (recs s) -> getr (setr s r x) r = x.
+Proof. intros H. unfold getr. rewrite recs_setr. now apply nth_set_nth_same. Qed.
+Lemma getr_setr_other s r x q : q <> r -> getr (setr s r x) q = getr s q.
+Proof. intros H. unfold getr. rewrite recs_setr. now apply nth_set_nth_other. Qed.
+
+(* ------------------------------------------------------------------ *)
+(* The chain invariant (C04).  It only speaks about the list of instances. *)
+Definition pred_idx (i : nat) : option nat := match i with 0 => None | S j => Some j end.
+
+Definition inst_ok (l : list inst) (i : nat) (x : inst) : Prop :=
+  iwait x = pred_idx i /\ iexit x = over x /\
+  (over x = true \/ in_user x = true -> forall j y, j < i -> nth_error l j = Some y -> over y = true).
+
+Definition InvI (l : list inst) : Prop := forall i x, nth_error l i = Some x -> inst_ok l i x.
+
+Lemma InvI_nil : InvI []. Proof. intros [|i] x H; discriminate. Qed.
+
+(* replacing instance i by x' : the wait channel is kept, over-ness does not decrease, and x' is fine *)
+Lemma InvI_update l i x x' :
+  InvI l -> nth_error l i = Some x ->
+  iwait x' = iwait x -> (over x = true -> over x' = true) -> iexit x' = over x' ->
+  (over x' = true \/ in_user x' = true -> forall j y, j < i -> nth_error l j = Some y -> over y = true) ->
+  InvI (set_nth l i x').
+Proof.
+  intros HI Hx Hw Hmono Hex Hmine k y Hk.
+  assert (Hil : i < length l) by (eapply nth_error_nth_len; eauto).
+  destruct (Nat.eq_dec k i) as [->|Hne].
+  - rewrite nth_error_set_nth_same in Hk by exact Hil. inversion Hk; subst y.
+    destruct (HI i x Hx) as [H1 [H2 H3]].
+    split; [congruence|]. split; [exact Hex|].
+    intros Ho j z Hj Hz. rewrite nth_error_set_nth_other in Hz by lia. eapply Hmine; eauto.
+  - rewrite nth_error_set_nth_other in Hk by exact Hne.
+    destruct (HI k y Hk) as [H1 [H2 H3]]. split; [exact H1|]. split; [exact H2|].
+    intros Ho j z Hj Hz. destruct (Nat.eq_dec j i) as [->|Hji].
+    + rewrite nth_error_set_nth_same in Hz by exact Hil. inversion Hz; subst z.
+      apply Hmono. eapply H3; eauto.
+    + rewrite nth_error_set_nth_other in Hz by exact Hji. eapply H3; eauto.
+Qed.
+
+(* an update that keeps the shape (pc, wait channel, exit channel) *)
+Lemma InvI_update_same_shape l i x x' :
+  InvI l -> nth_error l i = Some x ->
+  iwait x' = iwait x -> ipcv x' = ipcv x -> iexit x' = iexit x -> InvI (set_nth l i x').
+Proof.
+  intros HI Hx Hw Hp He. destruct (HI i x Hx) as [H1 [H2 H3]].
+  assert (Ho : over x' = over x) by (unfold over; now rewrite Hp).
+  assert (Hu : in_user x' = in_user x) by (unfold in_user; now rewrite Hp).
+  apply (InvI_update l i x x' HI Hx Hw).
+  - rewrite Ho. auto.
+  - rewrite He, Ho. exact H2.
+  - rewrite Ho, Hu. exact H3.
+Qed.
+
+Lemma InvI_app l x :
+  InvI l -> iwait x = pred_idx (length l) -> ipcv x = IGate0 -> iexit x = false -> InvI (l ++ [x]).
+Proof.
+  intros HI Hw Hp He k y Hk.
+  destruct (Nat.lt_ge_cases k (length l)) as [Hl|Hl].
+  - rewrite nth_error_app1 in Hk by exact Hl. destruct (HI k y Hk) as [H1 [H2 H3]].
+    split; [exact H1|]. split; [exact H2|]. intros Ho j z Hj Hz.
+    rewrite nth_error_app1 in Hz by lia. eapply H3; eauto.
+  - rewrite nth_error_app2 in Hk by exact Hl.
+    destruct (k - length l) as [|d] eqn:E; simpl in Hk; [|destruct d; discriminate].
+    inversion Hk; subst y. assert (k = length l) by lia. subst k.
+    split; [exact Hw|]. split; [unfold over; now rewrite Hp, He|].
+    unfold over, in_user. rewrite Hp. intros [H|H]; discriminate.
+Qed.
+
+(* what the chain invariant gives *)
+Lemma InvI_pred_closed_all_over l i x :
+  InvI l -> nth_error l i = Some x ->
+  (match iwait x with Some j => iexit (nth j l inst0) | None => true end) = true ->
+  forall j y, j < i -> nth_error l j = Some y -> over y = true.
+Proof.
+  intros HI Hx Hc j y Hj Hy. destruct (HI i x Hx) as [H1 _]. rewrite H1 in Hc.
+  destruct i as [|p]; [lia|]. simpl in Hc.
+  assert (Hp : p < length l) by (apply nth_error_nth_len in Hx; lia).
+  destruct (nth_error l p) as [z|] eqn:Ez; [|apply nth_error_None in Ez; lia].
+  rewrite (nth_error_nth l p inst0 Ez) in Hc.
+  destruct (HI p z Ez) as [_ [G2 G3]]. rewrite G2 in Hc.
+  destruct (Nat.eq_dec j p) as [->|Hne]; [congruence|]. eapply G3; eauto. lia.
+Qed.
+
+Lemma at_most_one_by_order {A} (P : A -> bool) (l : list A) :
+  (forall i j x y, i < j -> nth_error l i = Some x -> nth_error l j = Some y -> P x = true -> P y = true -> False) ->
+  cnt P l <= 1.
+Proof.
+  induction l as [|h t IH]; intros H; [unfold cnt; simpl; lia|].
+  rewrite cnt_cons. destruct (P h) eqn:Eh; simpl.
+  - assert (cnt P t = 0); [|lia]. apply cnt_zero_forall. intros a Ha.
+    destruct (In_nth_error _ _ Ha) as [k Hk]. destruct (P a) eqn:Ea; [|reflexivity].
+    exfalso. apply (H 0 (S k) h a); simpl; auto; lia.
+  - apply IH. intros i j x y Hij Hx Hy. apply (H (S i) (S j) x y); simpl; auto; lia.
+Qed.
+
+Lemma InvI_at_most_one_in_user l : InvI l -> cnt in_user l <= 1.
+Proof.
+  intros HI. apply at_most_one_by_order. intros i j x y Hij Hx Hy Px Py.
+  destruct (HI j y Hy) as [_ [_ H3]]. specialize (H3 (or_intror Py) i x Hij Hx).
+  unfold over in H3. unfold in_user in Px. destruct (ipcv x); discriminate.
+Qed.
+
+(* ------------------------------------------------------------------ *)
+(* The whole-state invariant. *)
+Definition InvL (s : st) : Prop := lastexit s = pred_idx (length (insts s)).
+Definition InvR (s : st) : Prop :=
+  forall r j, routine s = Some r -> rexit (getr s r) = Some j -> S j = length (insts s).
+Definition InvW (s : st) : Prop := match routine s with Some r => r < length (recs s) | None => True end.
+
+Definition Inv (s : st) : Prop := InvI (insts s) /\ InvL s /\ InvR s /\ InvW s.
+
+(* ---- helper operations ---- *)
+Lemma cancel_inst_insts s oi :
+  InvI (insts s) -> InvI (insts (cancel_inst s oi)) /\ length (insts (cancel_inst s oi)) = length (insts s).
+Proof.
+  intros HI. unfold cancel_inst. destruct oi as [i|]; [|auto].
+  destruct (nth_error (insts s) i) as [x|] eqn:E; [|auto].
+  rewrite insts_seti. split; [|apply length_set_nth].
+  eapply InvI_update_same_shape; eauto.
+Qed.
+
+Lemma cancel_inst_other s oi :
+  lastexit (cancel_inst s oi) = lastexit s /\ routine (cancel_inst s oi) = routine s /\
+  recs (cancel_inst s oi) = recs s /\ kctx (cancel_inst s oi) = kctx s /\ timers (cancel_inst s oi) = timers s.
+Proof. unfold cancel_inst. destruct oi as [i|]; [|auto]. destruct (nth_error (insts s) i); auto. Qed.
+
+Lemma stop_timer_other s ot :
+  insts (stop_timer s ot) = insts s /\ lastexit (stop_timer s ot) = lastexit s /\ routine (stop_timer s ot) = routine s /\
+  recs (stop_timer s ot) = recs s /\ kctx (stop_timer s ot) = kctx s.
+Proof.
+  unfold stop_timer. destruct ot as [t|]; [|auto]. destruct (nth_error (timers s) t) as [x|]; [|auto].
+  destruct (tst x); auto.
+Qed.
+
+(* stop_rec: instances keep their shape; only record r changes, and its rexit is kept *)
+Lemma stop_rec_facts s r :
+  InvI (insts s) ->
+  let s' := stop_rec s r in
+  InvI (insts s') /\ length (insts s') = length (insts s) /\ lastexit s' = lastexit s /\ routine s' = routine s /\
+  kctx s' = kctx s /\ length (recs s') = length (recs s) /\
+  (r < length (recs s) -> rexit (getr s' r) = rexit (getr s r) /\ rfn (getr s' r) = rfn (getr s r) /\ rarg (getr s' r) = rarg (getr s r)
+                          /\ rerr (getr s' r) = rerr (getr s r) /\ rsucc (getr s' r) = rsucc (getr s r) /\ rexited (getr s' r) = rexited (getr s r)
+                          /\ rctx (getr s' r) = None /\ rcancel (getr s' r) = None) /\
+  (forall q, q <> r -> getr s' q = getr s q).
+Proof.
+  intros HI. unfold stop_rec. set (x := getr s r).
+  destruct (cancel_inst_insts s (rcancel x) HI) as [C1 C2].
+  destruct (cancel_inst_other s (rcancel x)) as [C3 [C4 [C5 [C6 C7]]]].
+  set (s1 := cancel_inst s (rcancel x)) in *.
+  destruct (stop_timer_other s1 (rretry x)) as [T1 [T2 [T3 [T4 T5]]]].
+  set (s2 := stop_timer s1 (rretry x)) in *.
+  cbn zeta. rewrite insts_setr, T1. split; [exact C1|]. split; [exact C2|].
+  split; [cbn; congruence|]. split; [cbn; congruence|]. split; [cbn; congruence|].
+  split; [rewrite recs_setr, length_set_nth; congruence|].
+  split.
+  - intros Hr. rewrite getr_setr_same by congruence. cbn. repeat split; reflexivity.
+  - intros q Hq. rewrite getr_setr_other by exact Hq. unfold getr. congruence.
+Qed.
+
+(* start_rec on the current record with an admissible wait channel preserves the invariant *)
+Lemma start_rec_inv s r ctx w force :
+  Inv s -> routine s = Some r -> (forall j, w = Some j -> S j = length (insts s)) ->
+  Inv (start_rec repaired s r ctx w force).
+Proof.
+  intros [HI [HL [HR HW]]] Hcur Hw. unfold start_rec.
+  destruct ((negb force && rsucc (getr s r)) || Nat.eqb (rfn (getr s r)) 0); [exact (conj HI (conj HL (conj HR HW)))|].
+  destruct (negb force && (match rctx (getr s r) with Some _ => true | None => false end) && negb (rexited (getr s r)) && ctx_live s (rctx (getr s r)));
+    [exact (conj HI (conj HL (conj HR HW)))|].
+  assert (Hrl : r < length (recs s)) by (unfold InvW in HW; now rewrite Hcur in HW).
+  destruct (stop_rec_facts s r HI) as [S1 [S2 [S3 [S4 [S5 [S6 [S7 S8]]]]]]].
+  set (s1 := stop_rec s r) in *. cbn zeta.
+  set (n := length (insts s1)).
+  set (w' := match w with Some _ => w | None => if fx_last repaired then lastexit s1 else None end).
+  assert (Hw' : w' = pred_idx n).
+  { unfold w', n. rewrite S2. destruct w as [j|].
+    - rewrite <- (Hw j eq_refl). reflexivity.
+    - unfold repaired. cbn [fx_last]. rewrite S3. exact HL. }
+  split; [|split; [|split]].
+  - (* InvI *) rewrite insts_setr. cbn [insts set_lastexit set_insts]. apply InvI_app; [exact S1 | exact Hw' | reflexivity | reflexivity].
+  - (* InvL *) unfold InvL. rewrite insts_setr. cbn [lastexit insts setr set_recs set_lastexit set_insts]. rewrite app_length. cbn [length]. rewrite Nat.add_1_r. reflexivity.
+  - (* InvR *) intros q j Hq Hj. assert (Hq' : routine s1 = Some q) by exact Hq. rewrite S4, Hcur in Hq'. inversion Hq'; subst q.
+    rewrite getr_setr_same in Hj by (change (r < length (recs s1)); rewrite S6; exact Hrl). cbn [rexit] in Hj. inversion Hj; subst j.
+    rewrite insts_setr. cbn [insts set_lastexit set_insts]. rewrite app_length. cbn [length]. lia.
+  - (* InvW *) unfold InvW. rewrite routine_setr, routine_set_lastexit, routine_set_insts, S4, Hcur.
+    rewrite recs_setr, length_set_nth, recs_set_lastexit, recs_set_insts, S6. exact Hrl.
+Qed.
+
+(* ---- generic preservation lemmas ---- *)
+Lemma Inv_ext s s' :
+  insts s' = insts s -> lastexit s' = lastexit s -> routine s' = routine s -> recs s' = recs s -> Inv s -> Inv s'.
+Proof.
+  intros E1 E2 E3 E4 [HI [HL [HR HW]]]. unfold Inv, InvL, InvR, InvW, getr in *. rewrite E1, E2, E3, E4. auto.
+Qed.
+
+Lemma Inv_seti s i x' :
+  Inv s -> InvI (set_nth (insts s) i x') -> Inv (seti s i x').
+Proof.
+  intros [HI [HL [HR HW]]] HI'. unfold Inv, InvL, InvR, InvW, getr in *.
+  rewrite insts_seti, recs_seti, length_set_nth. cbn [lastexit routine seti set_insts]. auto.
+Qed.
+
+Lemma Inv_setr s r x :
+  Inv s -> (routine s = Some r -> forall j, rexit x = Some j -> S j = length (insts s)) -> Inv (setr s r x).
+Proof.
+  intros [HI [HL [HR HW]]] Hx. unfold Inv, InvL, InvR, InvW in *.
+  rewrite insts_setr, routine_setr, recs_setr, length_set_nth. cbn [lastexit setr set_recs].
+  split; [exact HI|]. split; [exact HL|]. split; [|exact HW].
+  intros q j Hq Hj. destruct (Nat.eq_dec q r) as [->|Hne].
+  - destruct (Nat.lt_ge_cases r (length (recs s))) as [Hl|Hl].
+    + rewrite getr_setr_same in Hj by exact Hl. eapply Hx; eauto.
+    + unfold getr in Hj. rewrite recs_setr, set_nth_oob in Hj by exact Hl. eapply HR; eauto.
+  - rewrite getr_setr_other in Hj by exact Hne. eapply HR; eauto.
+Qed.
+
+Lemma Inv_cancel_inst s oi : Inv s -> Inv (cancel_inst s oi).
+Proof.
+  intros H. unfold cancel_inst. destruct oi as [i|]; [|exact H].
+  destruct (nth_error (insts s) i) as [x|] eqn:E; [|exact H].
+  apply Inv_seti; [exact H|]. destruct H as [HI _]. eapply InvI_update_same_shape; eauto.
+Qed.
+
+Lemma Inv_stop_timer s ot : Inv s -> Inv (stop_timer s ot).
+Proof. destruct (stop_timer_other s ot) as [E1 [E2 [E3 [E4 _]]]]. intros H. apply (Inv_ext s); auto. Qed.
+
+Lemma Inv_stop_rec s r : Inv s -> Inv (stop_rec s r).
+Proof.
+  intros H. unfold stop_rec. apply Inv_setr.
+  - apply Inv_stop_timer, Inv_cancel_inst, H.
+  - intros Hcur j Hj. cbn [rexit] in Hj.
+    destruct (stop_timer_other (cancel_inst s (rcancel (getr s r))) (rretry (getr s r))) as [E1 [_ [E3 _]]].
+    destruct (cancel_inst_other s (rcancel (getr s r))) as [_ [C4 _]].
+    destruct H as [HI [_ [HR _]]]. destruct (cancel_inst_insts s (rcancel (getr s r)) HI) as [_ C2].
+    rewrite E1, C2. eapply HR; eauto. rewrite E3, C4 in Hcur. exact Hcur.
+Qed.
+
+Lemma routine_stop_rec s r : routine (stop_rec s r) = routine s.
+Proof.
+  unfold stop_rec. rewrite routine_setr.
+  destruct (stop_timer_other (cancel_inst s (rcancel (getr s r))) (rretry (getr s r))) as [_ [_ [E3 _]]].
+  destruct (cancel_inst_other s (rcancel (getr s r))) as [_ [C4 _]]. congruence.
+Qed.
+
+Lemma Inv_do_bcast s : Inv s -> Inv (do_bcast s). Proof. intros H. apply (Inv_ext s); auto. Qed.
+
+(* the wait channel handed to start by its callers is the current record's exit channel *)
+Lemma InvR_wait s r : Inv s -> routine s = Some r -> forall j, rexit (getr s r) = Some j -> S j = length (insts s).
+Proof. intros [_ [_ [HR _]]] Hc j Hj. eapply HR; eauto. Qed.
+
+(* ---- API sections ---- *)
+Lemma set_context_inv s c restart : Inv s -> Inv (fst (set_context repaired s c restart)).
+Proof.
+  intros H. unfold set_context.
+  destruct (Nat.eqb (kctx s) c && negb restart); [exact H|].
+  assert (H1 : Inv (set_kctx s c)) by (apply (Inv_ext s); auto).
+  change (routine (set_kctx s c)) with (routine s).
+  destruct (routine s) as [r|] eqn:Er; [|exact H1].
+  destruct (Nat.eqb (kctx s) c && is_nil (rerr (getr (set_kctx s c) r))); [exact H1|].
+  destruct (negb (is_nil (rerr (getr (set_kctx s c) r))) && negb restart && negb (Nat.eqb c 0)); [exact H1|].
+  cbn [fst]. apply Inv_do_bcast.
+  assert (H2 : Inv (stop_rec (set_kctx s c) r)) by (now apply Inv_stop_rec).
+  destruct ((is_nil (rerr (getr (set_kctx s c) r)) || restart) && negb (Nat.eqb c 0)); [|exact H2].
+  assert (Er2 : routine (stop_rec (set_kctx s c) r) = Some r) by (rewrite routine_stop_rec; exact Er).
+  apply start_rec_inv; [exact H2 | exact Er2 | exact (InvR_wait _ r H2 Er2)].
+Qed.
+
+Lemma Inv_new_record s x :
+  Inv s -> rexit x = None -> Inv (set_routine (set_recs s (recs s ++ [x])) (Some (length (recs s)))).
+Proof.
+  intros [HI [HL [HR HW]]] Hx. unfold Inv, InvL, InvR, InvW in *. cbn [insts lastexit routine recs set_routine set_recs].
+  split; [exact HI|]. split; [exact HL|]. split.
+  - intros q j Hq Hj. inversion Hq; subst q. unfold getr in Hj. cbn [recs set_routine set_recs] in Hj.
+    rewrite app_nth2 in Hj by lia. rewrite Nat.sub_diag in Hj. cbn in Hj. congruence.
+  - rewrite app_length. cbn. lia.
+Qed.
+
+Lemma Inv_clear_routine s : Inv s -> Inv (set_routine s None).
+Proof.
+  intros [HI [HL [HR HW]]]. unfold Inv, InvL, InvR, InvW in *. cbn [insts lastexit routine recs set_routine].
+  split; [exact HI|]. split; [exact HL|]. split; [intros r j Hq; discriminate | exact I].
+Qed.
+
+Lemma set_routine_locked_inv s f arg : Inv s -> Inv (fst (set_routine_locked repaired s f arg)).
+Proof.
+  intros H. unfold set_routine_locked.
+  (* phase 1: detach the previous record *)
+  set (ph := match routine s with
+             | Some p => _
+             | None => (s, None, false)
+             end).
+  assert (Hph : Inv (fst (fst ph)) /\ routine (fst (fst ph)) = None /\
+                (forall j, snd (fst ph) = Some j -> S j = length (insts (fst (fst ph))))).
+  { unfold ph. destruct (routine s) as [p|] eqn:Ep.
+    - cbn [fst snd]. split; [|split].
+      + apply Inv_clear_routine. apply Inv_setr; [apply Inv_cancel_inst, H|].
+        intros Hc j Hj. cbn [rexit] in Hj.
+        destruct H as [HI [_ [HR _]]]. destruct (cancel_inst_insts s (rcancel (getr s p)) HI) as [_ C2].
+        rewrite C2. eapply HR; eauto.
+      + reflexivity.
+      + intros j Hj.
+        destruct H as [HI [_ [HR _]]]. destruct (cancel_inst_insts s (rcancel (getr s p)) HI) as [_ C2].
+        cbn [insts set_routine]. rewrite insts_setr, C2. eapply HR; eauto.
+    - cbn [fst snd]. split; [exact H|]. split; [exact Ep|]. intros; discriminate. }
+  destruct ph as [[s1 prevExit] wasReset]. cbn [fst snd] in Hph. destruct Hph as [H1 [Hn Hp]].
+  destruct (negb (Nat.eqb f 0)).
+  - cbn [fst]. apply Inv_do_bcast.
+    set (x := {| rfn := f; rarg := arg; rctx := None; rcancel := None; rexit := None; rerr := ONil; rsucc := false; rexited := false; rretry := None |}).
+    assert (H2 : Inv (set_routine (set_recs s1 (recs s1 ++ [x])) (Some (length (recs s1))))) by (now apply Inv_new_record).
+    destruct (negb (Nat.eqb (kctx (set_routine (set_recs s1 (recs s1 ++ [x])) (Some (length (recs s1))))) 0)); [|exact H2].
+    apply start_rec_inv; [exact H2 | reflexivity | exact Hp].
+  - cbn [fst]. destruct wasReset; [apply Inv_do_bcast|]; exact H1.
+Qed.
+
+Lemma restart_routine_inv s : Inv s -> Inv (fst (restart_routine repaired s)).
+Proof.
+  intros H. unfold restart_routine. destruct (routine s) as [r|] eqn:Er; [|exact H].
+  set (x := getr s r).
+  set (s1 := cancel_inst s (rcancel x)).
+  assert (H1 : Inv s1) by (apply Inv_cancel_inst, H).
+  assert (R1 : routine s1 = Some r) by (unfold s1; destruct (cancel_inst_other s (rcancel x)) as [_ [C _]]; congruence).
+  assert (L1 : length (insts s1) = length (insts s)) by (destruct H as [HI _]; apply (cancel_inst_insts s (rcancel x) HI)).
+  assert (X1 : getr s1 r = x) by (unfold s1, getr; destruct (cancel_inst_other s (rcancel x)) as [_ [_ [C _]]]; rewrite C; reflexivity).
+  set (s2 := setr s1 r _).
+  assert (H2 : Inv s2).
+  { apply Inv_setr; [exact H1|]. intros _ j Hj. cbn [rexit] in Hj. rewrite L1. eapply InvR_wait; eauto. }
+  destruct (Nat.eqb (kctx s2) 0); [exact H2|]. cbn [fst]. apply Inv_do_bcast.
+  set (y := getr s2 r).
+  apply start_rec_inv.
+  - apply Inv_setr; [exact H2|]. intros _ j Hj. discriminate.
+  - rewrite routine_setr. unfold s2. rewrite routine_setr. exact R1.
+  - intros j Hj. rewrite insts_setr. unfold s2. rewrite insts_setr, L1.
+    assert (Hrl : r < length (recs s1)).
+    { destruct H1 as [_ [_ [_ HW]]]. unfold InvW in HW. now rewrite R1 in HW. }
+    unfold y, s2 in Hj. rewrite getr_setr_same in Hj by exact Hrl. cbn [rexit] in Hj.
+    eapply InvR_wait; eauto.
+Qed.
+
+Lemma update_sr_inv s : Inv s -> Inv (fst (update_sr repaired s)).
+Proof.
+  intros H. unfold update_sr.
+  pose proof (set_routine_locked_inv s (if negb (Nat.eqb (sfn s) 0) && negb (N.eqb (sval s) 0) then sfn s else 0) (sval s) H) as G.
+  destruct (set_routine_locked repaired s _ (sval s)) as [s1 [w reset]]. exact G.
+Qed.
+
+Lemma set_state_locked_inv s v : Inv s -> Inv (fst (set_state_locked repaired s v)).
+Proof.
+  intros H. unfold set_state_locked. destruct (state_equal (scmp s) (sval s) v); [exact H|].
+  assert (H1 : Inv (set_sval s v)) by (apply (Inv_ext s); auto).
+  pose proof (update_sr_inv _ H1) as G.
+  destruct (update_sr repaired (set_sval s v)) as [s1 [[w reset] running]]. cbn [fst] in *. now apply Inv_do_bcast.
+Qed.
+
+Lemma swap_value_inv s g : Inv s -> Inv (fst (swap_value repaired s g)).
+Proof.
+  intros H. unfold swap_value.
+  destruct (negb (N.eqb (if Nat.eqb g 0 then sval s else swap_fn g (sval s)) (sval s))); [|exact H].
+  pose proof (set_state_locked_inv s (if Nat.eqb g 0 then sval s else swap_fn g (sval s)) H) as G.
+  destruct (set_state_locked repaired s _) as [s1 [[[w changed] reset] running]]. exact G.
+Qed.
+
+(* ---- instance steps ---- *)
+Lemma pred_closed_all_over s i x :
+  InvI (insts s) -> nth_error (insts s) i = Some x -> pred_closed s x = true ->
+  forall j y, j < i -> nth_error (insts s) j = Some y -> over y = true.
+Proof. intros HI Hx Hc. eapply InvI_pred_closed_all_over; eauto. Qed.
+
+Lemma Inv_enter s i x :
+  Inv s -> nth_error (insts s) i = Some x -> ipcv x <> IUser -> over x = false -> pred_closed s x = true ->
+  Inv (seti s i (with_pc x IUser)).
+Proof.
+  intros H Hx Hnu Hno Hc. apply Inv_seti; [exact H|]. destruct H as [HI _].
+  destruct (HI i x Hx) as [_ [E2 _]].
+  apply (InvI_update (insts s) i x _ HI Hx).
+  - reflexivity.
+  - rewrite Hno. discriminate.
+  - cbn. rewrite E2. exact Hno.
+  - intros _. eapply pred_closed_all_over; eauto.
+Qed.
+
+Lemma Inv_skip s i x o :
+  Inv s -> nth_error (insts s) i = Some x -> pred_closed s x = true -> Inv (seti s i (with_over x o)).
+Proof.
+  intros H Hx Hc. apply Inv_seti; [exact H|]. destruct H as [HI _].
+  apply (InvI_update (insts s) i x _ HI Hx).
+  - reflexivity.
+  - reflexivity.
+  - reflexivity.
+  - intros _. eapply pred_closed_all_over; eauto.
+Qed.
+
+Lemma Inv_block s i x p :
+  Inv s -> nth_error (insts s) i = Some x -> over x = false -> (p = IWait \/ p = IWaitC) -> Inv (seti s i (with_pc x p)).
+Proof.
+  intros H Hx Hno Hp. apply Inv_seti; [exact H|]. destruct H as [HI _]. destruct (HI i x Hx) as [_ [E2 _]].
+  apply (InvI_update (insts s) i x _ HI Hx).
+  - reflexivity.
+  - rewrite Hno. discriminate.
+  - cbn. rewrite E2, Hno. destruct Hp as [-> | ->]; reflexivity.
+  - destruct Hp as [-> | ->]; cbn; intros [G|G]; discriminate.
+Qed.
+
+Lemma pred_closed_none s x : iwait x = None -> pred_closed s x = true.
+Proof. unfold pred_closed. now intros ->. Qed.
+
+Lemma proceed_inv s i en : Inv s -> Inv (proceed repaired s i en).
+Proof.
+  intros H. unfold proceed. destruct (nth_error (insts s) i) as [x|] eqn:Ex; [|exact H].
+  destruct (ipcv x) eqn:Ep; try exact H.
+  assert (Hno : over x = false) by (unfold over; now rewrite Ep).
+  assert (Hnu : ipcv x <> IUser) by (rewrite Ep; discriminate).
+  destruct (iwait x) as [j|] eqn:Ew.
+  - destruct (pred_closed s x) eqn:Ec; cbn [andb].
+    + destruct (icanc x); [destruct en|]; try (now apply Inv_enter); now apply Inv_skip.
+    + destruct (icanc x); cbn [fx_wait repaired]; apply Inv_block; auto.
+  - destruct (icanc x); [apply Inv_skip | apply Inv_enter]; auto using pred_closed_none.
+Qed.
+
+Lemma wake_inv s i en : Inv s -> Inv (wake repaired s i en).
+Proof.
+  intros H. unfold wake. destruct (nth_error (insts s) i) as [x|] eqn:Ex; [|exact H].
+  destruct (ipcv x) eqn:Ep; try exact H.
+  - assert (Hno : over x = false) by (unfold over; now rewrite Ep).
+    assert (Hnu : ipcv x <> IUser) by (rewrite Ep; discriminate).
+    destruct (pred_closed s x) eqn:Ec; cbn [andb].
+    + destruct (icanc x); [destruct en|]; try (now apply Inv_enter); now apply Inv_skip.
+    + destruct (icanc x); cbn [fx_wait repaired]; [apply Inv_block; auto | exact H].
+  - destruct (pred_closed s x) eqn:Ec; [now apply Inv_skip | exact H].
+Qed.
+
+Lemma fn_return_inv s i o : Inv s -> Inv (fn_return s i o).
+Proof.
+  intros H. unfold fn_return. destruct (nth_error (insts s) i) as [x|] eqn:Ex; [|exact H].
+  destruct (ipcv x) eqn:Ep; try exact H.
+  apply Inv_seti; [exact H|]. destruct H as [HI _]. destruct (HI i x Ex) as [_ [_ E3]].
+  apply (InvI_update (insts s) i x _ HI Ex); try reflexivity. intros _. apply E3. right. unfold in_user. now rewrite Ep.
+Qed.
+
+Lemma Inv_done s i x o : Inv s -> nth_error (insts s) i = Some x -> ipcv x = IBook o -> Inv (seti s i (with_pc x IDone)).
+Proof.
+  intros H Hx Hp. apply Inv_seti; [exact H|]. destruct H as [HI _]. destruct (HI i x Hx) as [_ [E2 E3]].
+  assert (Ho : over x = true) by (unfold over; now rewrite Hp).
+  apply (InvI_update (insts s) i x _ HI Hx).
+  - reflexivity.
+  - reflexivity.
+  - cbn. rewrite E2. exact Ho.
+  - intros _. apply E3. now left.
+Qed.
+
+(* a record update that clears rexit keeps the invariant *)
+Lemma Inv_setr_noexit s r x : Inv s -> rexit x = None -> Inv (setr s r x).
+Proof. intros H Hx. apply Inv_setr; [exact H|]. intros _ j Hj. congruence. Qed.
+
+Lemma Inv_set_bo s x : Inv s -> Inv (set_bo s x). Proof. intros H. apply (Inv_ext s); auto. Qed.
+Lemma Inv_set_timers s x : Inv s -> Inv (set_timers s x). Proof. intros H. apply (Inv_ext s); auto. Qed.
+Lemma Inv_set_cblog s x : Inv s -> Inv (set_cblog s x). Proof. intros H. apply (Inv_ext s); auto. Qed.
+
+Lemma bookkeep_inv s i : Inv s -> Inv (bookkeep s i).
+Proof.
+  intros H. unfold bookkeep. destruct (nth_error (insts s) i) as [x|] eqn:Ex; [|exact H].
+  destruct (ipcv x) eqn:Ep; try exact H.
+  assert (H0 : Inv (seti s i (with_pc x IDone))) by (eapply Inv_done; eauto).
+  set (s0 := seti s i (with_pc x IDone)) in *.
+  destruct (rctx (getr s (irec x))) as [j|]; [|exact H0].
+  destruct (Nat.eqb j i); [|exact H0].
+  apply Inv_do_bcast, Inv_set_cblog.
+  destruct (bo s0) as [[l k]|].
+  - destruct (is_nil o).
+    + apply Inv_setr_noexit; [apply Inv_set_bo, Inv_stop_timer, H0 | reflexivity].
+    + destruct (match routine (stop_timer s0 (rretry (getr s (irec x)))) with Some r' => Nat.eqb r' (irec x) | None => false end).
+      * destruct (nth_error l k).
+        -- apply Inv_setr_noexit; [apply Inv_set_timers, Inv_set_bo, Inv_stop_timer, H0 | reflexivity].
+        -- apply Inv_setr_noexit; [apply Inv_set_bo, Inv_stop_timer, H0 | reflexivity].
+      * apply Inv_setr_noexit; [apply Inv_stop_timer, H0 | reflexivity].
+  - apply Inv_setr_noexit; [exact H0 | reflexivity].
+Qed.
+
+Lemma timer_cb_inv s t : Inv s -> Inv (timer_cb repaired s t).
+Proof.
+  intros H. unfold timer_cb. destruct (nth_error (timers s) t) as [x|]; [|exact H].
+  destruct (tst x); try exact H.
+  apply Inv_do_bcast.
+  set (s1 := set_timers s _).
+  assert (H1 : Inv s1) by (now apply Inv_set_timers).
+  destruct (match rretry (getr s1 (trec x)) with Some t' => Nat.eqb t' t | None => false end); cbn [fx_timer repaired andb]; [|exact H1].
+  destruct (negb (Nat.eqb (kctx s1) 0)); cbn [andb]; [|exact H1].
+  destruct (routine s1) as [r'|] eqn:Er; [|exact H1].
+  destruct (Nat.eqb_spec r' (trec x)) as [->|]; cbn [andb]; [|exact H1].
+  destruct (rexited (getr s1 (trec x))); [|exact H1].
+  apply start_rec_inv; [exact H1 | exact Er | exact (InvR_wait _ _ H1 Er)].
+Qed.
+
+Lemma Inv_set_waiters s x : Inv s -> Inv (set_waiters s x). Proof. intros H. apply (Inv_ext s); auto. Qed.
+Lemma Inv_set_b s x : Inv s -> Inv (set_b s x). Proof. intros H. apply (Inv_ext s); auto. Qed.
+
+Lemma wait_section_inv s a : Inv s -> Inv (wait_section s a).
+Proof.
+  intros H. unfold wait_section. destruct (nth_error (waiters s) a) as [w|]; [|exact H].
+  destruct (wpcv w); try exact H. destruct (getch (b s)) as [b' ch].
+  destruct (match routine s with Some r => _ | None => _ end); [|destruct (wcanc w)]; unfold setw; now apply Inv_set_waiters, Inv_set_b.
+Qed.
+
+Lemma step_inv s e : Inv s -> Inv (step repaired s e).
+Proof.
+  intros H. destruct e; cbn [step].
+  - now apply set_context_inv.
+  - destruct (sv s); [exact H | now apply set_routine_locked_inv].
+  - now apply restart_routine_inv.
+  - destruct (sv s); [now apply set_state_locked_inv | exact H].
+  - destruct (sv s); [now apply swap_value_inv | exact H].
+  - destruct (sv s); [|exact H]. apply update_sr_inv. apply (Inv_ext s); auto.
+  - now apply proceed_inv.
+  - now apply wake_inv.
+  - now apply fn_return_inv.
+  - now apply bookkeep_inv.
+  - unfold advance. apply Inv_set_timers. apply (Inv_ext s); auto.
+  - now apply timer_cb_inv.
+  - now apply Inv_set_waiters.
+  - now apply wait_section_inv.
+  - unfold wait_wake. destruct (nth_error (waiters s) a) as [w|]; [|exact H]. destruct (wpcv w); try exact H.
+    destruct (closed (b s) ch); [unfold setw; now apply Inv_set_waiters | exact H].
+  - unfold wait_cancel. destruct (nth_error (waiters s) a) as [w|]; [|exact H].
+    destruct (wpcv w); try exact H; unfold setw; now apply Inv_set_waiters.
+  - unfold wait_errch. destruct (nth_error (waiters s) a) as [w|]; [|exact H].
+    destruct (wpcv w); try exact H; unfold setw; now apply Inv_set_waiters.
+Qed.
+
+Lemma init_inv v c n sc : Inv (init v c n sc).
+Proof.
+  unfold Inv, InvL, InvR, InvW, init. cbn [insts lastexit routine recs length pred_idx].
+  split; [apply InvI_nil|]. split; [reflexivity|]. split; [intros r j Hq; discriminate | exact I].
+Qed.
+
+Theorem run_inv v c n sc es : Inv (run repaired (init v c n sc) es).
+Proof. unfold run. apply fold_inv; [intros s e; apply step_inv | apply init_inv]. Qed.
+
+(* ---- C04 ---- *)
+Theorem at_most_one_in_user v c n sc es : cnt in_user (insts (run repaired (init v c n sc) es)) <= 1.
+Proof. apply InvI_at_most_one_in_user. apply run_inv. Qed.
+
+(* an exited channel that is closed: its instance and every earlier one have left user code *)
+Theorem closed_exit_all_earlier_over v c n sc es j x :
+  let s := run repaired (init v c n sc) es in
+  nth_error (insts s) j = Some x -> iexit x = true ->
+  forall k y, k <= j -> nth_error (insts s) k = Some y -> over y = true.
+Proof.
+  intros s Hx He k y Hk Hy. destruct (run_inv v c n sc es) as [HI _]. fold s in HI.
+  destruct (HI j x Hx) as [_ [E2 E3]]. rewrite E2 in He.
+  destruct (Nat.eq_dec k j) as [->|Hne]; [congruence|]. eapply E3; eauto. lia.
+Qed.
+
+(* the channel SetRoutine / SetState hand out is the exit channel of the newest instance *)
+Theorem wait_return_is_newest v c n sc es f arg j :
+  let s := run repaired (init v c n sc) es in
+  fst (snd (set_routine_locked repaired s f arg)) = Some j -> S j = length (insts s).
+Proof.
+  intros s Hj. pose proof (run_inv v c n sc es) as H. fold s in H.
+  unfold set_routine_locked in Hj. destruct (routine s) as [p|] eqn:Ep.
+  - destruct (negb (Nat.eqb f 0)); cbn [fst snd] in Hj; eapply InvR_wait; eauto.
+  - destruct (negb (Nat.eqb f 0)); cbn [fst snd] in Hj; discriminate.
+Qed.
+
+(* an instance enters the user function only when every earlier instance has left it *)
+Theorem enter_only_after_all_earlier v c n sc es i x :
+  let s := run repaired (init v c n sc) es in
+  nth_error (insts s) i = Some x -> in_user x = true ->
+  forall k y, k < i -> nth_error (insts s) k = Some y -> over y = true.
+Proof.
+  intros s Hx Hu k y Hk Hy. destruct (run_inv v c n sc es) as [HI _]. fold s in HI.
+  destruct (HI i x Hx) as [_ [_ E3]]. eapply E3; eauto.
+Qed.
+
+(* the pinned code (before the D2 repair): a cancelled instance that still waits for its predecessor
+   reports its exit at once, and the next instance overlaps the first *)
+Definition pinned_d2 : fixes := {| fx_wait := false; fx_last := true; fx_timer := true |}.
+Definition d2_witness : list ev :=
+  [ESetCtx 1 false; ESetRoutine 1; EProceed 0 true; ERestart; EProceed 1 false; ERestart; EWake 1 true; EProceed 2 true].
+Lemma d2_refuted : cnt in_user (insts (run pinned_d2 (init false 1 1 None) d2_witness)) = 2.
+Proof. vm_compute. reflexivity. Qed.
+
+Definition pinned_d3 : fixes := {| fx_wait := true; fx_last := false; fx_timer := true |}.
+Definition d3_witness : list ev :=
+  [ESetCtx 1 false; ESetRoutine 1; EProceed 0 true; ESetRoutine 0; ESetRoutine 2; EProceed 1 true].
+Lemma d3_refuted : cnt in_user (insts (run pinned_d3 (init false 1 1 None) d3_witness)) = 2.
+Proof. vm_compute. reflexivity. Qed.
